@@ -178,7 +178,7 @@ theorem Inv_ite {α} {self : Path} {c : Prop} [Decidable c] {a b : M α} (ha : I
 /-! ### primitives -/
 
 /-- `register` logs exactly the registrations it appends to the deques -/
-theorem register_spec (stage : Point) (regs : List Reg) (i : Nat) (s : St) :
+theorem register_spec (stage : Stage) (regs : List Reg) (i : Nat) (s : St) :
     ∃ evs s', register stage regs i s = .ok () s' ∧ (∀ e ∈ evs, e.isReg = true) ∧
       s'.stack = s.stack ∧ s'.log = s.log ++ evs ∧ s'.respQ = s.respQ ++ regsOf .resp evs ∧
       s'.finQ = s.finQ ++ regsOf .fin evs ∧ s'.kids = s.kids := by
@@ -222,7 +222,7 @@ theorem hook_spec (cfg : Cfg) (self : Path) (p : Point) (s : St) :
       (hook cfg self p s).st.log = s.log ++ Ev.hook p (s.stack.head? == some self) s.stack.length :: evs ∧
       (hook cfg self p s).st.respQ = s.respQ ++ regsOf .resp evs ∧
       (hook cfg self p s).st.finQ = s.finQ ++ regsOf .fin evs := by
-  obtain ⟨evs, s', h1, h2, h3, h4, h5, h6, _⟩ := register_spec p cfg.regs 0
+  obtain ⟨evs, s', h1, h2, h3, h4, h5, h6, _⟩ := register_spec (.hook p) cfg.regs 0
     { s with log := s.log ++ [Ev.hook p (s.stack.head? == some self) s.stack.length] }
   refine ⟨evs, h2, ?_⟩
   have hst : (hook cfg self p s).st = s' := by
@@ -308,14 +308,14 @@ theorem Inv_invokeOther (xv : Bool) (t : Kind × Option Kind × Bool) (self : Pa
                   kids := s.kids ++ [Tr.node r.st.log (match r with
                       | .ok true _ => Outcome.resp
                       | .ok false _ => Outcome.raised .http
-                      | .err e _ => Outcome.raised e) r.st.stack.length []] } : R Unit)
+                      | .err e _ => Outcome.raised e) r.st.stack.length [] (r.st.respQ.length, r.st.finQ.length)] } : R Unit)
               | .raised e => R.err e { s with
                   log := s.log ++ [Ev.sub otherId, Ev.resume (r.st.stack.head? == some self) r.st.stack.length],
                   stack := r.st.stack,
                   kids := s.kids ++ [Tr.node r.st.log (match r with
                       | .ok true _ => Outcome.resp
                       | .ok false _ => Outcome.raised .http
-                      | .err e _ => Outcome.raised e) r.st.stack.length []] }).st
+                      | .err e _ => Outcome.raised e) r.st.stack.length [] (r.st.respQ.length, r.st.finQ.length)] }).st
         [Ev.sub otherId, Ev.resume (s.stack.head? == some self) s.stack.length] := by
     intro r hr
     have hgood : ∀ e ∈ [Ev.sub otherId, Ev.resume (s.stack.head? == some self) s.stack.length],
@@ -401,44 +401,199 @@ theorem Inv_chain {xv : Bool} {cfg : Cfg} {self : Path} {useTw : Bool} {subsM : 
   unfold chain
   inv_auto
 
-/-! ### the callback loops -/
+/-! ### the callback loops: FIFO work-lists drained until empty -/
 
-def cbEvs (k : CbKind) (cur : Bool) (d : Nat) (ids : List Nat) : List Ev := ids.map fun i => Ev.cb k i cur d
+def cbId (k : CbKind) : Ev → Option Nat
+  | .cb k' i _ _ => if k' = k then some i else none
+  | _ => none
+
+/-- ids of the callbacks of kind `k` run in a log, in order -/
+def cbIds (k : CbKind) (evs : List Ev) : List Nat := evs.filterMap (cbId k)
+
+/-- what a drain of deque `k` logs: runs of callbacks of that kind and the registrations they make -/
+def Ev.isCbOrReg (k : CbKind) : Ev → Bool
+  | .cb k' _ _ _ => k' == k
+  | .reg _ _ => true
+  | _ => false
 
 def allOk (cfg : Cfg) (q : List Nat) : Bool := q.all fun i => !cbFaulty cfg i
 
-/-- `_process_*_callbacks`: runs the deque from the left through the first failing callback; fails iff one fails -/
-theorem runCbs_spec (cfg : Cfg) (self : Path) (k : CbKind) (q : List Nat) (s : St) :
-    (allOk cfg q = true → runCbs cfg self k q s =
-        .ok () { s with log := s.log ++ cbEvs k (s.stack.head? == some self) s.stack.length (throughFault cfg q) }) ∧
-    (allOk cfg q = false → ∃ e, runCbs cfg self k q s =
-        .err e { s with log := s.log ++ cbEvs k (s.stack.head? == some self) s.stack.length (throughFault cfg q) }) := by
-  induction q generalizing s with
-  | nil => simp [allOk, runCbs, throughFault, cbEvs, M.pure]
-  | cons i rest ih =>
-    simp only [runCbs, bind_def, M.bind, getStack, emit, allOk, List.all_cons, throughFault, cbFaulty]
-    rcases Option.eq_none_or_eq_some (cbFault cfg i) with hf | ⟨f, hf⟩
-    · simp only [hf, Option.isSome_none, Bool.not_false, Bool.true_and, Bool.false_eq_true, ↓reduceIte]
-      have ih' := ih { s with log := s.log ++ [Ev.cb k i (s.stack.head? == some self) s.stack.length] }
-      simp only [allOk] at ih'
-      constructor
-      · intro h
-        rw [ih'.1 h]
-        simp [cbEvs]
-      · intro h
-        obtain ⟨e, he⟩ := ih'.2 h
-        exact ⟨e, by rw [he]; simp [cbEvs]⟩
-    · simp [hf, throw, cbEvs]
+def other : CbKind → CbKind
+  | .resp => .fin
+  | .fin => .resp
 
-theorem regsOf_cbEvs (k' k : CbKind) (c : Bool) (d : Nat) (ids : List Nat) : regsOf k' (cbEvs k c d ids) = [] := by
-  induction ids with
-  | nil => rfl
-  | cons i rest ih => simpa [regsOf, cbEvs, regId] using ih
+theorem cbIds_append (k : CbKind) (a b : List Ev) : cbIds k (a ++ b) = cbIds k a ++ cbIds k b := by
+  simp [cbIds, List.filterMap_append]
 
-theorem finIds_cbEvs_fin (c : Bool) (d : Nat) (ids : List Nat) : finIds (cbEvs .fin c d ids) = ids := by
-  induction ids with
+theorem finId_eq_cbId (e : Ev) : finId e = cbId .fin e := by
+  cases e with
+  | cb k i c d => cases k <;> simp [finId, cbId]
+  | _ => rfl
+
+theorem finIds_eq_cbIds (evs : List Ev) : finIds evs = cbIds .fin evs := by
+  simp only [finIds, cbIds]
+  congr 1
+  exact funext finId_eq_cbId
+
+theorem cbIds_regs (k : CbKind) {evs : List Ev} (h : ∀ e ∈ evs, e.isReg = true) : cbIds k evs = [] := by
+  induction evs with
   | nil => rfl
-  | cons i rest ih => simp [finIds, cbEvs, finId] at ih ⊢; exact ih
+  | cons e rest ih =>
+    have he := h e List.mem_cons_self
+    have := ih (fun x hx => h x (List.mem_cons_of_mem _ hx))
+    simp only [cbIds] at this ⊢
+    cases e <;> simp_all [Ev.isReg, cbId]
+
+theorem getQ_setQ (k : CbKind) (q : List Nat) (s : St) : getQ k (setQ k q s) = q := by cases k <;> rfl
+theorem getQ_other_setQ (k : CbKind) (q : List Nat) (s : St) : getQ (other k) (setQ k q s) = getQ (other k) s := by
+  cases k <;> rfl
+
+/-- the three ways a drain can end -/
+inductive DrainEnd (cfg : Cfg) (k : CbKind) (n : Nat) (q0 : List Nat) (evs : List Ev) (r : R Unit) : Prop where
+  | done (hok : ∃ u, r = .ok u r.st) (hq : getQ k r.st = [])
+      (hall : cbIds k evs = q0 ++ regsOf k evs) (hnf : ∀ i ∈ cbIds k evs, cbFaulty cfg i = false)
+  | failed (A : List Nat) (i : Nat) (L : List Nat) (herr : ∃ e, r = .err e r.st)
+      (hrun : cbIds k evs = A ++ [i]) (hi : cbFaulty cfg i = true) (hA : ∀ a ∈ A, cbFaulty cfg a = false)
+      (hall : A ++ i :: L = q0 ++ regsOf k evs) (hq : getQ k r.st = L)
+  | fuel (hok : ∃ u, r = .ok u r.st) (hlen : (cbIds k evs).length = n)
+
+theorem drain_spec (cfg : Cfg) (self : Path) (k : CbKind) : ∀ (n : Nat) (s : St), s.stack.head? = some self →
+    ∃ evs, (drain cfg self k n s).st.stack = s.stack ∧ (drain cfg self k n s).st.log = s.log ++ evs ∧
+      (∀ e ∈ evs, e.isCbOrReg k = true ∧ e.curOk = true) ∧
+      getQ (other k) (drain cfg self k n s).st = getQ (other k) s ++ regsOf (other k) evs ∧
+      DrainEnd cfg k n (getQ k s) evs (drain cfg self k n s) := by
+  intro n
+  induction n with
+  | zero =>
+    intro s _
+    exact ⟨[], rfl, by simp [drain, R.st], by simp, by simp [drain, R.st, regsOf], .fuel ⟨(), rfl⟩ rfl⟩
+  | succ n ih =>
+    intro s hs
+    simp only [drain]
+    cases hq : getQ k s with
+    | nil =>
+      refine ⟨[], rfl, by simp [R.st], by simp, by simp [R.st, regsOf], ?_⟩
+      exact .done ⟨(), rfl⟩ (by simpa [R.st] using hq) (by simp [cbIds, regsOf]) (by simp [cbIds])
+    | cons i rest =>
+      simp only
+      obtain ⟨cevs, s3, h1, h2, h3, h4, h5, h6, _⟩ := register_spec (.cb i) cfg.regs 0
+        { setQ k rest s with log := (setQ k rest s).log ++
+            [Ev.cb k i ((setQ k rest s).stack.head? == some self) (setQ k rest s).stack.length] }
+      rw [h1]
+      simp only
+      have hstk : (setQ k rest s).stack = s.stack := by cases k <;> rfl
+      have hlog : (setQ k rest s).log = s.log := by cases k <;> rfl
+      have hQk : getQ k s3 = rest ++ regsOf k cevs := by
+        cases k
+        · simpa [getQ, setQ] using h5
+        · simpa [getQ, setQ] using h6
+      have hQo : getQ (other k) s3 = getQ (other k) s ++ regsOf (other k) cevs := by
+        cases k
+        · simpa [getQ, setQ, other] using h6
+        · simpa [getQ, setQ, other] using h5
+      have hcb : (Ev.cb k i (s.stack.head? == some self) s.stack.length).isCbOrReg k = true ∧
+          (Ev.cb k i (s.stack.head? == some self) s.stack.length).curOk = true := by
+        simp [Ev.isCbOrReg, Ev.curOk, hs]
+      have hcevs : ∀ e ∈ cevs, e.isCbOrReg k = true ∧ e.curOk = true := by
+        intro e he
+        have := h2 e he
+        cases e <;> simp_all [Ev.isReg, Ev.isCbOrReg, Ev.curOk]
+      have hids0 : cbIds k (Ev.cb k i (s.stack.head? == some self) s.stack.length :: cevs) = [i] := by
+        have := cbIds_regs k h2
+        simp only [cbIds] at this ⊢
+        simp [cbId, this]
+      have hregs0 : ∀ k', regsOf k' (Ev.cb k i (s.stack.head? == some self) s.stack.length :: cevs) = regsOf k' cevs := by
+        intro k'
+        simp only [regsOf]
+        rw [List.filterMap_cons_none (by rfl)]
+      rcases Option.eq_none_or_eq_some (cbFault cfg i) with hf | ⟨f, hf⟩
+      · -- the callback succeeds: go on with what is in the deque now
+        simp only [hf]
+        obtain ⟨evs', e1, e2, e3, e4, e5⟩ := ih s3 (by rw [h3]; simpa [hstk] using hs)
+        refine ⟨Ev.cb k i (s.stack.head? == some self) s.stack.length :: cevs ++ evs', ?_, ?_, ?_, ?_, ?_⟩
+        · rw [e1, h3, hstk]
+        · rw [e2, h4]; simp [hstk, hlog]
+        · intro e he
+          rcases List.mem_append.mp he with h | h
+          · rcases List.mem_cons.mp h with h | h
+            · subst h; exact hcb
+            · exact hcevs e h
+          · exact e3 e h
+        · rw [e4, hQo, regsOf_append, hregs0, List.append_assoc]
+        · have hnfi : cbFaulty cfg i = false := by simp [cbFaulty, hf]
+          cases e5 with
+          | done hok hq' hall hnf =>
+            refine .done hok hq' ?_ ?_
+            · rw [cbIds_append, hids0, hall, hQk, regsOf_append, hregs0]; simp
+            · intro j hj
+              rw [cbIds_append, hids0] at hj
+              rcases List.mem_append.mp hj with h | h
+              · simp at h; subst h; exact hnfi
+              · exact hnf j h
+          | failed A j L herr hrun hj hA hall hq' =>
+            refine .failed (i :: A) j L herr ?_ hj ?_ ?_ hq'
+            · rw [cbIds_append, hids0, hrun]; simp
+            · intro a ha
+              rcases List.mem_cons.mp ha with h | h
+              · subst h; exact hnfi
+              · exact hA a h
+            · rw [regsOf_append, hregs0]
+              simp only [List.cons_append]
+              rw [hall, hQk]; simp
+          | fuel hok hlen =>
+            refine .fuel hok ?_
+            rw [cbIds_append, hids0]; simp [hlen]
+      · -- the callback fails: the rest stays in the deque
+        simp only [hf]
+        refine ⟨Ev.cb k i (s.stack.head? == some self) s.stack.length :: cevs, ?_, ?_, ?_, ?_, ?_⟩
+        · simp only [R.st]; rw [h3, hstk]
+        · simp only [R.st]; rw [h4]; simp [hstk, hlog]
+        · intro e he
+          rcases List.mem_cons.mp he with h | h
+          · subst h; exact hcb
+          · exact hcevs e h
+        · simp only [R.st]; rw [hQo, hregs0]
+        · refine .failed [] i (rest ++ regsOf k cevs) ⟨_, rfl⟩ (by simpa using hids0) (by simp [cbFaulty, hf]) (by simp) ?_ hQk
+          rw [hregs0]; simp
+
+theorem throughFault_split (cfg : Cfg) (A : List Nat) (i : Nat) (L : List Nat) (hA : ∀ a ∈ A, cbFaulty cfg a = false)
+    (hi : cbFaulty cfg i = true) : throughFault cfg (A ++ i :: L) = A ++ [i] := by
+  induction A with
+  | nil => simp [throughFault, hi]
+  | cons a rest ih =>
+    simp only [List.cons_append, throughFault, hA a List.mem_cons_self, Bool.false_eq_true, ↓reduceIte]
+    rw [ih (fun x hx => hA x (List.mem_cons_of_mem _ hx))]
+
+theorem allOk_iff (cfg : Cfg) (q : List Nat) : allOk cfg q = true ↔ ∀ i ∈ q, cbFaulty cfg i = false := by
+  simp [allOk, List.all_eq_true]
+
+/-- what the statement reads off a drain that ended by itself (fewer than `n` callbacks ran): the callbacks run are
+the complete FIFO sequence — what was queued plus what was registered meanwhile — through the first failing one; it
+fails iff one fails; if none fails nothing is left -/
+theorem drain_through {cfg : Cfg} {k : CbKind} {n : Nat} {q0 : List Nat} {evs : List Ev} {r : R Unit}
+    (h : DrainEnd cfg k n q0 evs r) (hlen : (cbIds k evs).length < n) :
+    cbIds k evs = throughFault cfg (q0 ++ regsOf k evs) ∧
+    ((∃ u, r = .ok u r.st) ↔ allOk cfg (q0 ++ regsOf k evs) = true) ∧
+    (allOk cfg (q0 ++ regsOf k evs) = true → getQ k r.st = []) := by
+  cases h with
+  | done hok hq hall hnf =>
+    have hnf' : ∀ i ∈ q0 ++ regsOf k evs, cbFaulty cfg i = false := by rw [← hall]; exact hnf
+    refine ⟨by rw [throughFault_of_none _ _ hnf']; exact hall, ⟨fun _ => (allOk_iff _ _).mpr hnf', fun _ => hok⟩, fun _ => hq⟩
+  | failed A i L herr hrun hi hA hall hq =>
+    have hnot : allOk cfg (q0 ++ regsOf k evs) = false := by
+      rw [← hall]
+      cases hx : allOk cfg (A ++ i :: L) with
+      | false => rfl
+      | true =>
+        have := (allOk_iff _ _).mp hx i (by simp)
+        rw [hi] at this; cases this
+    refine ⟨by rw [← hall, throughFault_split cfg A i L hA hi]; exact hrun, ⟨?_, ?_⟩, ?_⟩
+    · intro ⟨u, hu⟩
+      obtain ⟨e, he⟩ := herr
+      rw [he] at hu; cases hu
+    · intro h; rw [hnot] at h; cases h
+    · intro h; rw [hnot] at h; cases h
+  | fuel hok hl => omega
 
 theorem respTrace_regs {evs : List Ev} (h : ∀ e ∈ evs, e.isReg = true) : respTrace evs = [] := by
   induction evs with
@@ -447,26 +602,32 @@ theorem respTrace_regs {evs : List Ev} (h : ∀ e ∈ evs, e.isReg = true) : res
     have he := h e List.mem_cons_self
     cases e <;> simp_all [Ev.isReg, respTrace, respItem]
 
-/-- the response phase as the statement reads it -/
-theorem respTrace_phase (cfg : Cfg) (c : Bool) (d : Nat) (q : List Nat) (c' : Bool) (d' : Nat) (regEvs : List Ev)
-    (hr : ∀ e ∈ regEvs, e.isReg = true) :
-    respTrace (cbEvs .resp c d (throughFault cfg q) ++
-      (if allOk cfg q = true then Ev.hook .newResponse c' d' :: regEvs else [])) = expectedResp cfg q := by
+theorem respTrace_drain {evs : List Ev} (h : ∀ e ∈ evs, e.isCbOrReg .resp = true ∧ e.curOk = true) :
+    respTrace evs = (cbIds .resp evs).map some := by
+  induction evs with
+  | nil => rfl
+  | cons e rest ih =>
+    have he := (h e List.mem_cons_self).1
+    have := ih (fun x hx => h x (List.mem_cons_of_mem _ hx))
+    simp only [respTrace, cbIds] at this ⊢
+    cases e with
+    | cb k i c d =>
+      cases k with
+      | resp => simp [respItem, cbId, this]
+      | fin => simp [Ev.isCbOrReg] at he
+    | reg k i => simp only [List.filterMap_cons, respItem, cbId]; exact this
+    | _ => simp [Ev.isCbOrReg] at he
+
+theorem expectedResp_eq (cfg : Cfg) (q : List Nat) :
+    expectedResp cfg q = (throughFault cfg q).map some ++ (if allOk cfg q = true then [none] else []) := by
   induction q with
-  | nil =>
-    simp only [throughFault, cbEvs, allOk, List.all_nil, List.map_nil, List.nil_append, ↓reduceIte, expectedResp]
-    simp only [respTrace, List.filterMap_cons, respItem]
-    have := respTrace_regs hr
-    simp only [respTrace] at this
-    rw [this]
+  | nil => simp [expectedResp, throughFault, allOk]
   | cons i rest ih =>
-    simp only [throughFault, expectedResp, allOk, List.all_cons]
+    simp only [expectedResp, throughFault, allOk, List.all_cons]
     rcases Bool.eq_false_or_eq_true (cbFaulty cfg i) with hf | hf
-    · simp [hf, cbEvs, respTrace, respItem]
-    · simp only [hf, Bool.false_eq_true, ↓reduceIte, Bool.not_false, Bool.true_and]
+    · simp [hf]
+    · simp only [hf, Bool.false_eq_true, ↓reduceIte, Bool.not_false, Bool.true_and, List.map_cons, List.cons_append]
       simp only [allOk] at ih
-      simp only [cbEvs, List.map_cons, List.cons_append, respTrace, List.filterMap_cons, respItem]
-      simp only [cbEvs, respTrace] at ih
       exact congrArg (some i :: ·) ih
 
 /-! ### the shape of one request's own log -/
@@ -492,95 +653,117 @@ theorem probed_eq (xv : Bool) (cfg : Cfg) (self : Path) (useTw : Bool) (subsM : 
   simp only [probed, tryCatch, bind_def, M.bind, emit, throw]
   cases chain xv cfg self useTw subsM s <;> rfl
 
-theorem finPhase_spec (cfg : Cfg) (self : Path) (s : St) :
-    (finPhase cfg self s).st.stack = s.stack ∧
-    (finPhase cfg self s).st.log =
-      s.log ++ cbEvs .fin (s.stack.head? == some self) s.stack.length (throughFault cfg s.finQ) := by
-  simp only [finPhase, bind_def, M.bind, takeFinQ]
-  have h := runCbs_spec cfg self .fin s.finQ { s with finQ := [] }
-  rcases Bool.eq_false_or_eq_true (allOk cfg s.finQ) with ha | ha
-  · rw [h.1 ha]; exact ⟨rfl, rfl⟩
-  · obtain ⟨e, he⟩ := h.2 ha
-    rw [he]; exact ⟨rfl, rfl⟩
+/-- Router.finish_request: the finished-callback deque drained -/
+theorem finPhase_spec (cfg : Cfg) (self : Path) (s : St) (hs : s.stack.head? = some self) :
+    ∃ tail, (finPhase cfg self s).st.stack = s.stack ∧ (finPhase cfg self s).st.log = s.log ++ tail ∧
+      (∀ e ∈ tail, e.isCbOrReg .fin = true ∧ e.curOk = true) ∧
+      ((cbIds .fin tail).length < drainFuel →
+        cbIds .fin tail = throughFault cfg (s.finQ ++ regsOf .fin tail) ∧
+        (allOk cfg (s.finQ ++ regsOf .fin tail) = true → (finPhase cfg self s).st.finQ = [])) := by
+  obtain ⟨evs, h1, h2, h3, _, h5⟩ := drain_spec cfg self .fin drainFuel s hs
+  refine ⟨evs, h1, h2, h3, fun hl => ?_⟩
+  obtain ⟨a, _, c⟩ := drain_through h5 hl
+  exact ⟨a, c⟩
 
-theorem cbEvs_mem {k : CbKind} {c : Bool} {d : Nat} {ids : List Nat} {e : Ev} (h : e ∈ cbEvs k c d ids) :
-    ∃ i, e = Ev.cb k i c d := by
-  simp only [cbEvs, List.mem_map] at h
-  obtain ⟨i, _, hi⟩ := h
-  exact ⟨i, hi.symm⟩
-
-/-- what follows the chain inside the `try`: the response callbacks through the first failing one, then (iff none
-failed) NewResponse and the registrations its subscribers make -/
+/-- what follows the chain inside the `try`: the response-callback deque drained, then (iff no callback failed)
+NewResponse and the registrations its subscribers make -/
 theorem respPhase_spec (cfg : Cfg) (self : Path) (s : St) (hs : s.stack.head? = some self) :
-    ∃ post, (respPhase cfg self s).st.stack = s.stack ∧
-      (respPhase cfg self s).st.log = s.log ++ post ∧
-      (respPhase cfg self s).st.finQ = s.finQ ++ regsOf .fin post ∧
-      respTrace post = expectedResp cfg s.respQ ∧
-      (∀ e ∈ post, e.isFinCb = false ∧ e.isChain = false ∧ e.curOk = true) := by
-  simp only [respPhase, bind_def, pure_def, M.bind, takeRespQ]
-  have h := runCbs_spec cfg self .resp s.respQ { s with respQ := [] }
-  rcases Bool.eq_false_or_eq_true (allOk cfg s.respQ) with ha | ha
-  · rw [h.1 ha]
+    ∃ rp np, (respPhase cfg self s).st.stack = s.stack ∧
+      (respPhase cfg self s).st.log = s.log ++ (rp ++ np) ∧
+      (respPhase cfg self s).st.finQ = s.finQ ++ regsOf .fin (rp ++ np) ∧
+      (∀ e ∈ rp, e.isCbOrReg .resp = true ∧ e.curOk = true) ∧
+      (np = [] ∨ ∃ d regEvs, np = Ev.hook .newResponse true d :: regEvs ∧ ∀ e ∈ regEvs, e.isReg = true) ∧
+      ((cbIds .resp rp).length < drainFuel →
+        respTrace (rp ++ np) = expectedResp cfg (s.respQ ++ regsOf .resp rp)) := by
+  obtain ⟨rp, h1, h2, h3, h4, h5⟩ := drain_spec cfg self .resp drainFuel s hs
+  simp only [respPhase, bind_def, pure_def, M.bind]
+  cases hd : drain cfg self .resp drainFuel s with
+  | err e s1 =>
+    rw [hd] at h1 h2 h4 h5
+    simp only [R.st] at h1 h2 h4
+    refine ⟨rp, [], h1, by simpa [R.st] using h2, by simpa [R.st, getQ, other] using h4, h3, Or.inl rfl, fun hl => ?_⟩
+    obtain ⟨a, b, _⟩ := drain_through h5 hl
+    have hnot : allOk cfg (s.respQ ++ regsOf .resp rp) = false := by
+      cases hx : allOk cfg (s.respQ ++ regsOf .resp rp) with
+      | false => rfl
+      | true =>
+        obtain ⟨u, hu⟩ := b.mpr (by simpa [getQ] using hx)
+        cases hu
+    rw [List.append_nil, respTrace_drain h3, expectedResp_eq, hnot]
+    simp only [getQ] at a
+    rw [a]; simp
+  | ok u s1 =>
+    rw [hd] at h1 h2 h4 h5
+    simp only [R.st] at h1 h2 h4
     simp only
-    obtain ⟨regEvs, hr, h2, h3, _, h5⟩ := hook_spec cfg self .newResponse
-      { s with respQ := [], log := s.log ++ cbEvs .resp (s.stack.head? == some self) s.stack.length (throughFault cfg s.respQ) }
-    refine ⟨cbEvs .resp (s.stack.head? == some self) s.stack.length (throughFault cfg s.respQ) ++
-        Ev.hook .newResponse (s.stack.head? == some self) s.stack.length :: regEvs, ?_, ?_, ?_, ?_, ?_⟩
-    · cases hh : hook cfg self .newResponse _ with
-      | ok a s' => rw [hh] at h2; simpa [R.st, M.pure] using h2
-      | err e s' => rw [hh] at h2; simpa [R.st] using h2
-    · cases hh : hook cfg self .newResponse _ with
-      | ok a s' => rw [hh] at h3; simpa [R.st, M.pure] using h3
-      | err e s' => rw [hh] at h3; simpa [R.st] using h3
-    · have : regsOf .fin (cbEvs .resp (s.stack.head? == some self) s.stack.length (throughFault cfg s.respQ) ++
-          Ev.hook .newResponse (s.stack.head? == some self) s.stack.length :: regEvs) = regsOf .fin regEvs := by
-        rw [regsOf_append, regsOf_cbEvs]
-        simp only [regsOf, List.nil_append]
+    obtain ⟨regEvs, hr, g2, g3, _, g5⟩ := hook_spec cfg self .newResponse s1
+    have hhead : (s1.stack.head? == some self) = true := by rw [h1]; simp [hs]
+    refine ⟨rp, Ev.hook .newResponse true s1.stack.length :: regEvs, ?_, ?_, ?_, h3, Or.inr ⟨_, _, rfl, hr⟩, fun hl => ?_⟩
+    · cases hh : hook cfg self .newResponse s1 with
+      | ok a s' => rw [hh] at g2; simpa [R.st, M.pure, h1] using g2
+      | err e s' => rw [hh] at g2; simpa [R.st, h1] using g2
+    · cases hh : hook cfg self .newResponse s1 with
+      | ok a s' => rw [hh] at g3; simp only [R.st, M.pure] at g3 ⊢; rw [g3, h2, hhead]; simp
+      | err e s' => rw [hh] at g3; simp only [R.st] at g3 ⊢; rw [g3, h2, hhead]; simp
+    · have hregs : regsOf .fin (rp ++ Ev.hook .newResponse true s1.stack.length :: regEvs) =
+          regsOf .fin rp ++ regsOf .fin regEvs := by
+        rw [regsOf_append]
+        simp only [regsOf]
         rw [List.filterMap_cons_none (by rfl)]
-      rw [this]
-      cases hh : hook cfg self .newResponse _ with
-      | ok a s' => rw [hh] at h5; simpa [R.st, M.pure] using h5
-      | err e s' => rw [hh] at h5; simpa [R.st] using h5
-    · have := respTrace_phase cfg (s.stack.head? == some self) s.stack.length s.respQ
-        (s.stack.head? == some self) s.stack.length regEvs hr
-      simpa [ha] using this
-    · intro e he
-      rcases List.mem_append.mp he with h | h
-      · obtain ⟨i, hi⟩ := cbEvs_mem h
-        subst hi; simp [Ev.isFinCb, Ev.isChain, Ev.curOk, hs]
-      · rcases List.mem_cons.mp h with h | h
-        · subst h; simp [Ev.isFinCb, Ev.isChain, Ev.curOk, hs]
-        · have := hr e h
-          cases e <;> simp_all [Ev.isReg, Ev.isFinCb, Ev.isChain, Ev.curOk]
-  · obtain ⟨e, he⟩ := h.2 ha
-    rw [he]
-    refine ⟨cbEvs .resp (s.stack.head? == some self) s.stack.length (throughFault cfg s.respQ), rfl, rfl, ?_, ?_, ?_⟩
-    · simp [R.st, regsOf_cbEvs]
-    · have := respTrace_phase cfg (s.stack.head? == some self) s.stack.length s.respQ true 0 [] (by simp)
-      simpa [ha] using this
-    · intro e he
-      obtain ⟨i, hi⟩ := cbEvs_mem he
-      subst hi; simp [Ev.isFinCb, Ev.isChain, Ev.curOk, hs]
+      have h4' : s1.finQ = s.finQ ++ regsOf .fin rp := by simpa [getQ, other] using h4
+      cases hh : hook cfg self .newResponse s1 with
+      | ok a s' => rw [hh] at g5; simp only [R.st, M.pure] at g5 ⊢; rw [g5, h4', hregs]; simp
+      | err e s' => rw [hh] at g5; simp only [R.st] at g5 ⊢; rw [g5, h4', hregs]; simp
+    · obtain ⟨a, b, _⟩ := drain_through h5 hl
+      have hall : allOk cfg (s.respQ ++ regsOf .resp rp) = true := by
+        have := b.mp ⟨u, rfl⟩
+        simpa [getQ] using this
+      simp only [getQ] at a
+      have hnp : respTrace (Ev.hook .newResponse true s1.stack.length :: regEvs) = [none] := by
+        have := respTrace_regs hr
+        simp only [respTrace] at this ⊢
+        simp [respItem, this]
+      simp only [respTrace, List.filterMap_append] at hnp ⊢
+      have hrp := respTrace_drain h3
+      simp only [respTrace] at hrp
+      rw [hrp, hnp, expectedResp_eq, hall, a]
+      simp
 
-/-- Everything the statement says about one request's own log: the events before the chain marker are chain-stage
-events; after the marker comes the response phase exactly when the chain responded; the finished callbacks are a
-suffix of the log and are the registered ones, in order, through the first failing one; every observation of the
-current request sees the request itself. -/
+/-- Everything the statement says about one request's own log.  `pre`: chain-stage events before the chain marker.
+`rp`: the response-callback deque being drained (runs of response callbacks and the registrations they make) — empty
+unless the chain responded; the callbacks run are the FIFO sequence of everything registered in `pre ++ rp` through the
+first failing one.  `np`: NewResponse (iff the drain completed) and its registrations.  `tail`: the finished-callback
+deque being drained, the callbacks run are the FIFO sequence of every finished callback registered anywhere in the log
+through the first failing one.  Every observation of the current request sees the request itself. -/
 def LogShape (cfg : Cfg) (own : List Ev) : Prop :=
-  ∃ pre b post tail, own = pre ++ Ev.chain b :: (post ++ tail) ∧
+  ∃ pre b rp np tail, own = pre ++ Ev.chain b :: (rp ++ np ++ tail) ∧
     (∀ e ∈ pre, e.isStage = true ∧ e.curOk = true) ∧
-    respTrace post = (if b = true then expectedResp cfg (regsOf .resp pre) else []) ∧
-    (∀ e ∈ post, e.isFinCb = false ∧ e.isChain = false ∧ e.curOk = true) ∧
-    (∀ e ∈ tail, e.isFinCb = true ∧ e.curOk = true) ∧
-    finIds tail = throughFault cfg (regsOf .fin (pre ++ post))
+    (∀ e ∈ rp, e.isCbOrReg .resp = true ∧ e.curOk = true) ∧
+    (np = [] ∨ ∃ d regEvs, np = Ev.hook .newResponse true d :: regEvs ∧ ∀ e ∈ regEvs, e.isReg = true) ∧
+    (b = false → rp = [] ∧ np = []) ∧
+    (b = true → (cbIds .resp rp).length < drainFuel →
+      respTrace (rp ++ np) = expectedResp cfg (regsOf .resp (pre ++ rp))) ∧
+    (∀ e ∈ tail, e.isCbOrReg .fin = true ∧ e.curOk = true) ∧
+    ((cbIds .fin tail).length < drainFuel →
+      cbIds .fin tail = throughFault cfg (regsOf .fin (pre ++ (rp ++ np) ++ tail)))
 
 theorem invokeRequest_shape {xv : Bool} {cfg : Cfg} {self : Path} {useTw : Bool} {subsM : M Unit}
     (hsub : Inv self subsM) (s0 : St) (h0 : s0.stack.head? = some self)
     (hl : s0.log = []) (hr : s0.respQ = []) (hf : s0.finQ = []) :
     (invokeRequest xv cfg self useTw subsM s0).st.stack = s0.stack ∧
-    LogShape cfg (invokeRequest xv cfg self useTw subsM s0).st.log := by
+    LogShape cfg (invokeRequest xv cfg self useTw subsM s0).st.log ∧
+    ((cbIds .fin (invokeRequest xv cfg self useTw subsM s0).st.log).length < drainFuel →
+      allOk cfg (regsOf .fin (invokeRequest xv cfg self useTw subsM s0).st.log) = true →
+      (invokeRequest xv cfg self useTw subsM s0).st.finQ = []) := by
   obtain ⟨pre, h1⟩ := (Inv_chain (xv := xv) (cfg := cfg) (useTw := useTw) hsub).run s0 h0
   simp only [invokeRequest, tryFinally_st, bind_def, M.bind, probed_eq]
+  have hpreids : cbIds .fin pre = [] := by
+    have : ∀ e ∈ pre, cbId .fin e = none := by
+      intro e he
+      have := (h1.good e he).1
+      cases e <;> simp_all [Ev.isStage, cbId]
+    simp only [cbIds]
+    exact List.filterMap_eq_nil_iff.mpr this
   cases hc : chain xv cfg self useTw subsM s0 with
   | ok u s1 =>
     rw [hc] at h1
@@ -588,68 +771,125 @@ theorem invokeRequest_shape {xv : Bool} {cfg : Cfg} {self : Path} {useTw : Bool}
     simp only
     have hs1 : ({ s1 with log := s1.log ++ [Ev.chain true] } : St).stack.head? = some self := by
       simp [h1.stack, h0]
-    obtain ⟨post, p1, p2, p3, p4, p5⟩ := respPhase_spec cfg self { s1 with log := s1.log ++ [Ev.chain true] } hs1
-    obtain ⟨f1, f2⟩ := finPhase_spec cfg self (respPhase cfg self { s1 with log := s1.log ++ [Ev.chain true] }).st
-    generalize (respPhase cfg self { s1 with log := s1.log ++ [Ev.chain true] }).st = sR at p1 p2 p3 f1 f2 ⊢
-    refine ⟨by rw [f1, p1]; exact h1.stack, ?_⟩
-    refine ⟨pre, true, post, cbEvs .fin (sR.stack.head? == some self) sR.stack.length (throughFault cfg sR.finQ),
-      ?_, h1.good, ?_, p5, ?_, ?_⟩
-    · rw [f2, p2]; simp only [h1.log, hl]; simp
-    · simp only [↓reduceIte]
-      rw [p4]; simp [h1.respQ, hr]
-    · intro e he
-      obtain ⟨i, hi⟩ := cbEvs_mem he
-      subst hi
-      simp only [Ev.isFinCb, Ev.curOk, true_and]
-      rw [p1]; simp [h1.stack, h0]
-    · rw [finIds_cbEvs_fin, p3]
-      simp [h1.finQ, hf, regsOf_append]
+    obtain ⟨rp, np, p1, p2, p3, p4, p5, p6⟩ := respPhase_spec cfg self { s1 with log := s1.log ++ [Ev.chain true] } hs1
+    generalize (respPhase cfg self { s1 with log := s1.log ++ [Ev.chain true] }).st = sR at p1 p2 p3 ⊢
+    obtain ⟨tail, f1, f2, f3, f4⟩ := finPhase_spec cfg self sR (by rw [p1]; exact hs1)
+    have hlogeq : (finPhase cfg self sR).st.log = pre ++ Ev.chain true :: (rp ++ np ++ tail) := by
+      rw [f2, p2]; simp only [h1.log, hl]; simp
+    have hfinQ : sR.finQ ++ regsOf .fin tail = regsOf .fin (pre ++ (rp ++ np) ++ tail) := by
+      rw [p3]; simp only [h1.finQ, hf]
+      simp [regsOf_append]
+    have hcurnp : ∀ e ∈ np, e.curOk = true := by
+      intro e he
+      rcases p5 with h | ⟨d, regEvs, h, hreg⟩
+      · subst h; cases he
+      · subst h
+        rcases List.mem_cons.mp he with h | h
+        · subst h; rfl
+        · exact (isReg_good (hreg e h)).2
+    refine ⟨by rw [f1, p1]; exact h1.stack, ?_, ?_⟩
+    · refine ⟨pre, true, rp, np, tail, hlogeq, h1.good, p4, p5, by simp, ?_, f3, ?_⟩
+      · intro _ hlen
+        rw [p6 hlen]; simp [h1.respQ, hr, regsOf_append]
+      · intro hlen
+        rw [(f4 hlen).1, hfinQ]
+    · rw [hlogeq]
+      intro hlen hall
+      have hids : cbIds .fin (pre ++ Ev.chain true :: (rp ++ np ++ tail)) = cbIds .fin tail := by
+        have hrp : cbIds .fin rp = [] := by
+          simp only [cbIds]
+          refine List.filterMap_eq_nil_iff.mpr fun e he => ?_
+          have := (p4 e he).1
+          cases e with
+          | cb k i c d => cases k <;> simp_all [Ev.isCbOrReg, cbId]
+          | _ => simp [cbId]
+        have hnp : cbIds .fin np = [] := by
+          rcases p5 with h | ⟨d, regEvs, h, hreg⟩
+          · subst h; rfl
+          · subst h
+            have := cbIds_regs .fin hreg
+            simp only [cbIds] at this ⊢
+            rw [List.filterMap_cons_none (by rfl)]
+            exact this
+        simp only [cbIds, List.filterMap_append, List.filterMap_cons] at hrp hnp hpreids ⊢
+        simp [hrp, hnp, hpreids, cbId]
+      have hregs : regsOf .fin (pre ++ Ev.chain true :: (rp ++ np ++ tail)) = regsOf .fin (pre ++ (rp ++ np) ++ tail) := by
+        simp only [regsOf, List.filterMap_append]
+        rw [List.filterMap_cons_none (by rfl)]
+        simp
+      rw [hids] at hlen
+      rw [hregs, ← hfinQ] at hall
+      exact (f4 hlen).2 hall
   | err e s1 =>
     rw [hc] at h1
     simp only [R.st] at h1
     simp only [st_err]
-    obtain ⟨f1, f2⟩ := finPhase_spec cfg self { s1 with log := s1.log ++ [Ev.chain false] }
-    refine ⟨by rw [f1]; exact h1.stack, ?_⟩
-    refine ⟨pre, false, [], cbEvs .fin (s1.stack.head? == some self) s1.stack.length (throughFault cfg s1.finQ),
-      ?_, h1.good, by simp [respTrace], by simp, ?_, ?_⟩
-    · rw [f2]; simp only [h1.log, hl]; simp
-    · intro e he
-      obtain ⟨i, hi⟩ := cbEvs_mem he
-      subst hi
-      simp [Ev.isFinCb, Ev.curOk, h1.stack, h0]
-    · rw [finIds_cbEvs_fin]
-      simp [h1.finQ, hf]
+    have hs1 : ({ s1 with log := s1.log ++ [Ev.chain false] } : St).stack.head? = some self := by
+      simp [h1.stack, h0]
+    obtain ⟨tail, f1, f2, f3, f4⟩ := finPhase_spec cfg self { s1 with log := s1.log ++ [Ev.chain false] } hs1
+    have hlogeq : (finPhase cfg self { s1 with log := s1.log ++ [Ev.chain false] }).st.log =
+        pre ++ Ev.chain false :: ([] ++ [] ++ tail) := by
+      rw [f2]; simp only [h1.log, hl]; simp
+    have hfinQ : s1.finQ ++ regsOf .fin tail = regsOf .fin (pre ++ ([] ++ []) ++ tail) := by
+      simp only [h1.finQ, hf]
+      simp [regsOf_append]
+    refine ⟨by rw [f1]; exact h1.stack, ?_, ?_⟩
+    · refine ⟨pre, false, [], [], tail, hlogeq, h1.good, by simp, Or.inl rfl, by simp, by simp, f3, ?_⟩
+      intro hlen
+      rw [(f4 hlen).1]
+      exact congrArg _ hfinQ
+    · rw [hlogeq]
+      intro hlen hall
+      have hids : cbIds .fin (pre ++ Ev.chain false :: ([] ++ [] ++ tail)) = cbIds .fin tail := by
+        simp only [cbIds, List.filterMap_append, List.filterMap_cons] at hpreids ⊢
+        simp [hpreids, cbId]
+      have hregs : regsOf .fin (pre ++ Ev.chain false :: ([] ++ [] ++ tail)) = regsOf .fin (pre ++ ([] ++ []) ++ tail) := by
+        simp only [regsOf, List.filterMap_append]
+        rw [List.filterMap_cons_none (by rfl)]
+        simp
+      rw [hids] at hlen
+      rw [hregs, ← hfinQ] at hall
+      exact (f4 hlen).2 hall
 
 /-! ### the request tree -/
 
 def Tr.own : Tr → List Ev
-  | .node o _ _ _ => o
+  | .node o _ _ _ _ => o
 def Tr.out : Tr → Outcome
-  | .node _ o _ _ => o
+  | .node _ o _ _ _ => o
 def Tr.depthAfter : Tr → Nat
-  | .node _ _ d _ => d
+  | .node _ _ d _ _ => d
 def Tr.kids : Tr → List Tr
-  | .node _ _ _ k => k
+  | .node _ _ _ k _ => k
+/-- (response callbacks, finished callbacks) left in the deques after the request -/
+def Tr.left : Tr → Nat × Nat
+  | .node _ _ _ _ l => l
 
 theorem runReq_eq (xv top : Bool) (cfg : Cfg) (subs : Reqs) (self : Path) (stack0 : List Path) :
     runReq xv top (.mk cfg subs) self stack0 =
       let r := invokeRequest xv cfg self (top || cfg.useTweens) (runSubs xv subs self 0) { stack := self :: stack0 }
-      (.node r.st.log (outcomeOf r) r.st.stack.tail.length r.st.kids, outcomeOf r, r.st.stack.tail) := by
+      (.node r.st.log (outcomeOf r) r.st.stack.tail.length r.st.kids (r.st.respQ.length, r.st.finQ.length),
+        outcomeOf r, r.st.stack.tail) := by
   rw [runReq]
 
 mutual
   /-- a request (WSGI call or subrequest at any depth) gives the stack back exactly as it found it, and its own
   log has the shape the statement describes -/
   theorem runReq_props (xv top : Bool) : ∀ (r : Req) (self : Path) (stack0 : List Path),
-      (runReq xv top r self stack0).2.2 = stack0 ∧ LogShape r.cfg (runReq xv top r self stack0).1.own
+      (runReq xv top r self stack0).2.2 = stack0 ∧ LogShape r.cfg (runReq xv top r self stack0).1.own ∧
+      ((cbIds .fin (runReq xv top r self stack0).1.own).length < drainFuel →
+        allOk r.cfg (regsOf .fin (runReq xv top r self stack0).1.own) = true →
+        (runReq xv top r self stack0).1.left.2 = 0)
     | .mk cfg subs, self, stack0 => by
       have hsub := runSubs_inv xv subs self 0
       have h := invokeRequest_shape (xv := xv) (cfg := cfg) (useTw := (top || cfg.useTweens)) hsub
         { stack := self :: stack0 } (by simp) rfl rfl rfl
       rw [runReq_eq]
-      simp only [Tr.own, Req.cfg]
-      refine ⟨?_, h.2⟩
-      rw [h.1]; rfl
+      simp only [Tr.own, Tr.left, Req.cfg]
+      refine ⟨?_, h.2.1, ?_⟩
+      · rw [h.1]; rfl
+      · intro hlen hall
+        rw [h.2.2 hlen hall]; rfl
 
   theorem runSubs_inv (xv : Bool) : ∀ (rs : Reqs) (self : Path) (i : Nat), Inv self (runSubs xv rs self i)
     | .nil, self, i => by
